@@ -316,3 +316,84 @@ func VerifC20_Repeatable() {
 	verif.Assert(len(d1[0].URLs) == len(d2[0].URLs) && len(o1[0].URLs) == len(o2[0].URLs), "the same addresses on every pass")
 	verif.Reached("end")
 }
+
+// the two certificate-hash fields are independent of each other and of the order
+// of their instructions; a malformed one leaves the other untouched
+func VerifC20_CertHashes() {
+	verif.NoPanic()
+	verif.Bound("C20 cert hashes", "DNS 'a' + a server-certificate hash and a CA hash instruction (SHA-256 and SHA-384 ids, 2 symbolic value bytes each), in both orders; the second optionally malformed (wrong shape with a valid-looking algorithm id); both roles")
+	device := verif.Bool("device")
+	h1 := Hash{Algorithm: Sha256Hash, Value: verif.Bytes("h1", 2)}
+	h2 := Hash{Algorithm: Sha384Hash, Value: verif.Bytes("h2", 2)}
+	sv := RvInstruction{Variable: RVSvCertHash, Value: vEnc(h1)}
+	ca := RvInstruction{Variable: RVClCertHash, Value: vEnc(h2)}
+	malformed := verif.Choose("malformed", 3) // 0 none, 1 CA hash malformed, 2 server hash malformed
+	switch malformed {
+	case 1:
+		ca.Value = vEnc([]any{int64(Sha384Hash), int64(7)})
+	case 2:
+		sv.Value = vEnc([]any{int64(Sha256Hash), int64(7)})
+	}
+	list := []RvInstruction{{Variable: RVDns, Value: vEnc("a")}, sv, ca}
+	if verif.Choose("order", 2) == 1 {
+		list[1], list[2] = list[2], list[1]
+	}
+	d := vParse([][]RvInstruction{list}, device)
+	verif.Assert(len(d) == 1, "one directive")
+	if malformed != 2 {
+		verif.Assert(d[0].ServerCert != nil && d[0].ServerCert.Algorithm == Sha256Hash && verif.BytesEq(d[0].ServerCert.Value, h1.Value), "the server certificate hash is the one its instruction carries")
+	} else {
+		verif.Assert(d[0].ServerCert == nil, "a malformed server certificate hash is ignored")
+	}
+	if malformed != 1 {
+		verif.Assert(d[0].ServerCA != nil && d[0].ServerCA.Algorithm == Sha384Hash && verif.BytesEq(d[0].ServerCA.Value, h2.Value), "the CA hash is the one its instruction carries")
+	} else {
+		verif.Assert(d[0].ServerCA == nil, "a malformed CA hash is ignored")
+	}
+	verif.Reached("end")
+}
+
+// role-specific ports: each role reads only its own port variable, else the protocol default
+func VerifC20_RolePorts() {
+	verif.NoPanic()
+	verif.Bound("C20 ports", "DNS 'a', protocol HTTP or HTTPS, device port and/or owner port present (values from {1,8080,65535} / {2,8443,65534}), every order of the port instructions; both roles")
+	device := verif.Bool("device")
+	dp := []uint16{1, 8080, 65535}[verif.Choose("devport", 3)]
+	op := []uint16{2, 8443, 65534}[verif.Choose("ownport", 3)]
+	https := verif.Bool("https")
+	proto := RVProtHTTP
+	if https {
+		proto = RVProtHTTPS
+	}
+	list := []RvInstruction{{Variable: RVDns, Value: vEnc("a")}, {Variable: RVProtocol, Value: vEnc(uint8(proto))}}
+	hasD, hasO := verif.Bool("hasdev"), verif.Bool("hasown")
+	ports := []RvInstruction{}
+	if hasD {
+		ports = append(ports, RvInstruction{Variable: RVDevPort, Value: vEnc(dp)})
+	}
+	if hasO {
+		ports = append(ports, RvInstruction{Variable: RVOwnerPort, Value: vEnc(op)})
+	}
+	if len(ports) == 2 && verif.Bool("swap") {
+		ports[0], ports[1] = ports[1], ports[0]
+	}
+	if verif.Bool("portsfirst") {
+		list = append(ports, list...)
+	} else {
+		list = append(list, ports...)
+	}
+	d := vParse([][]RvInstruction{list}, device)
+	verif.Assert(len(d) == 1 && len(d[0].URLs) == 1, "one URL")
+	want := uint16(80)
+	if https {
+		want = 443
+	}
+	if device && hasD {
+		want = dp
+	}
+	if !device && hasO {
+		want = op
+	}
+	verif.Assert(d[0].URLs[0].Port() == strconv.Itoa(int(want)), "the port is the role's own port variable if present, else the protocol default - never the other role's")
+	verif.Reached("end")
+}
